@@ -258,8 +258,12 @@ namespace bxdecay0_g4 {
           destroy();
         }
       } else {
-        if (action->IsTrace()) std::cerr << "[debug] bxdecay0_g4::PrimaryGeneratorAction::pimpl_type::get_decay0: Invalid configuration!\n";
-        
+        std::cerr << "[error] bxdecay0_g4::PrimaryGeneratorAction::pimpl_type::get_decay0: Invalid configuration! Abort run!\n";
+        // Do not keep serving the previous configuration:
+        destroy();
+        config = Configuration();
+        mdl_config = MdlEventOpConfiguration();
+        G4RunManager::GetRunManager()->AbortRun();
       }
     }
     if (pdecay0 == nullptr) {
